@@ -631,6 +631,12 @@ func (e *Enc) frameItems(ctx *SpecCtx, m Expr) (items []frameItem) {
 		}
 	}()
 	switch x := m.(type) {
+	case *EIdent:
+		tv := ctx.eval(x)
+		if pt, ok := tv.T.Underlying().(*types.Pointer); ok {
+			return e.locFrameItems(locOfRef(tv.V.(Sc).T, pt.Elem()))
+		}
+		ctx.fail("modifies: %s is not an addressable global", x.Name)
 	case *ESel:
 		base := ctx.eval(x.X)
 		if gl, ok := ctx.ghostFieldLoc(base, x.F); ok {
